@@ -83,6 +83,8 @@ def gen_design(r, features=("cname", "attr", "param", "names", "latch", "conn", 
             nets += outs
         elif kind < 0.85 and "names" in features:
             nin = r.randint(0 if "consts" in features else 1, 3)
+            if r.random() < 0.12:
+                nin = r.randint(10, 13)         # wide look-up tables: two-digit input positions
             ins = [r.choice(nets) for _ in range(nin)]
             if not pending_bus:
                 pending_bus = new_out()
